@@ -59,8 +59,10 @@ type Scenario struct {
 	HoldMs     int    `json:"hold_ms"`     // how long a "stall" holds the socket before the backend gives up and closes
 	// NoResponseTimeout: proxy.response_timeout is 0 ("disabled", what the documentation recommends for long
 	// generations); the configured read_timeout is what cuts off a stalled backend either way
-	NoResponseTimeout bool   `json:"no_response_timeout,omitempty"`
-	Route             string `json:"route"` // proxy (/olla/proxy/..., bytes relayed verbatim) | anthropic (/olla/anthropic/v1/messages: the backend's OpenAI SSE is translated on the fly; acknowledgement = the client saw new bytes)
+	NoResponseTimeout bool `json:"no_response_timeout,omitempty"`
+	// StreamBufferSize: proxy.stream_buffer_size for this rig (0 = the default)
+	StreamBufferSize int    `json:"stream_buffer_size,omitempty"`
+	Route            string `json:"route"` // proxy (/olla/proxy/..., bytes relayed verbatim) | anthropic (/olla/anthropic/v1/messages: the backend's OpenAI SSE is translated on the fly; acknowledgement = the client saw new bytes)
 }
 
 type ChunkObs struct {
@@ -640,12 +642,19 @@ type Rig struct {
 }
 
 func StartRig(engine, profile string, forced bool, timeoutMs int, noResponseTimeout ...bool) (*Rig, error) {
+	return StartRigBuf(engine, profile, forced, timeoutMs, 0, noResponseTimeout...)
+}
+
+func StartRigBuf(engine, profile string, forced bool, timeoutMs int, streamBuffer int, noResponseTimeout ...bool) (*Rig, error) {
 	b := NewBackend()
 	prio := 100
 	s, err := stack.Start(stack.Opts{Engine: engine, Balancer: "priority", Profile: profile, Mutate: func(cfg *config.Config) {
 		cfg.Proxy.ReadTimeout = time.Duration(timeoutMs) * time.Millisecond
 		if len(noResponseTimeout) > 0 && noResponseTimeout[0] {
 			cfg.Proxy.ResponseTimeout = 0
+		}
+		if streamBuffer > 0 {
+			cfg.Proxy.StreamBufferSize = streamBuffer
 		}
 		cfg.Discovery.Static.Endpoints = []config.EndpointConfig{{
 			URL: b.URL(), Name: "T", Type: "openai", Priority: &prio,
@@ -764,7 +773,7 @@ func RunBatch(scs []*Scenario) ([]*Obs, Leak) {
 		wg.Add(1)
 		go func(i int) {
 			defer wg.Done()
-			r, err := StartRig(scs[i].Engine, scs[i].Profile, scs[i].Forced, scs[i].TimeoutMs, scs[i].NoResponseTimeout)
+			r, err := StartRigBuf(scs[i].Engine, scs[i].Profile, scs[i].Forced, scs[i].TimeoutMs, scs[i].StreamBufferSize, scs[i].NoResponseTimeout)
 			if err != nil {
 				out[i] = &Obs{StartErr: err.Error()}
 				return
